@@ -50,6 +50,9 @@ func (p *Prop) Run(line string) core.Outcome {
 		o, _, _ := p.runDepsLine(line, true)
 		return o
 	}
+	if line == "E" || strings.HasPrefix(line, "E ") {
+		return p.runStdLine(line)
+	}
 	ops, ok := ParseCase(line)
 	if !ok {
 		return core.Outcome{Impl: "bad-op", Tags: []string{"trivial", "malformed"}}
@@ -110,6 +113,8 @@ func (p *Prop) Generate(rng *core.Rand, tier string, emit func(string)) {
 			emit(l)
 		}
 	}
+	// the standard apps on the load path (events / tls / pki): stdapps.go
+	p.genStd(rng.Fork(), tier, emit)
 	for _, l := range malformed {
 		emit(l)
 	}
